@@ -101,6 +101,13 @@ impl Tape {
 
     /// `true` with probability `num/den`. Recorded as the decision itself (0 = false).
     pub fn flag(&mut self, num: u32, den: u32, label: &'static str) -> bool {
+        // Certain outcomes are not decisions (and must not depend on what a shrunk tape holds).
+        if num == 0 {
+            return false;
+        }
+        if num >= den {
+            return true;
+        }
         self.record(label, 2, |r| (r.below(den as u64) < num as u64) as u32) == 1
     }
 
